@@ -61,6 +61,26 @@ Theorem C09_any_is_total : forall (ws : list (nat -> K)) (sh : list nat) (A m : 
 Proof. exact (sobol_any_is_total K Kth). Qed.
 End C09.
 
+(* mean_dimension as the translator regenerates it from anova.py on every run (Gen/Generated.v), composed with the kernel
+   models over the reals: sum_alpha |alpha| D_alpha / sum_alpha D_alpha, and its restriction to a mask *)
+From TN Require Import Alg.InstR Proofs.GenSobolInst Gen.Generated.
+From Coq Require Import Reals.
+Local Open Scope R_scope.
+Theorem C09_mean_dimension : forall (sh : list nat), sh <> [] -> forall (t : list (score RO)) (g : margT sh), okT sh t ->
+  gen_anova_mean_dimension_N (list (score RO)) (margT sh) (r_sobol sh) r_weight r_dim t g =
+  sumR (repeat 2%nat (length sh)) (fun al => r_wsize al * r_comp sh t g al) / sumR (repeat 2%nat (length sh)) (r_comp sh t g).
+Proof. exact mean_dimension_spec. Qed.
+Theorem C09_mean_dimension_masked : forall (sh : list nat), sh <> [] -> forall (t m : list (score RO)) (g : margT sh),
+  okT sh t -> okM sh m ->
+  sumR (repeat 2%nat (length sh)) (r_comp sh t g) <> 0 ->
+  sumR (repeat 2%nat (length sh)) (fun al => eval m al * r_comp sh t g al) <> 0 ->
+  gen_anova_mean_dimension_M (list (score RO)) (margT sh) (r_sobol sh) r_weight r_maskmul r_dim t m g =
+  sumR (repeat 2%nat (length sh)) (fun al => r_wsize al * (eval m al * r_comp sh t g al)) /
+  sumR (repeat 2%nat (length sh)) (fun al => eval m al * r_comp sh t g al).
+Proof. exact mean_dimension_masked_spec. Qed.
+
+Print Assumptions C09_mean_dimension.
+Print Assumptions C09_mean_dimension_masked.
 Print Assumptions C09_sobol_parts.
 Print Assumptions C09_extended_is_anova.
 Print Assumptions C09_parseval.
